@@ -122,6 +122,7 @@ package fptower
 
 //@ func E2.MulByElement
 //@ layer ring fp.Element
+//@ option interior
 //@ ensures[value] vec(z) == vscale(old(*y), old(vec(x)))
 //@ ensures[result] result == z
 //@ modifies z
@@ -358,6 +359,7 @@ package fptower
 
 //@ func E12.MulBy014
 //@ layer ring E2
+//@ option interior
 //@ ensures[value] tvec(z) == t12mul(NR_E2, old(tvec(z)), svec(6, 0, old(*c0), 1, old(*c1), 4, old(*c4)))
 //@ ensures[result] result == z
 //@ modifies z
@@ -365,6 +367,7 @@ package fptower
 
 //@ func E12.MulBy01
 //@ layer ring E2
+//@ option interior
 //@ ensures[value] tvec(z) == t12mul(NR_E2, old(tvec(z)), svec(6, 0, old(*c0), 1, old(*c1), 4, 1))
 //@ ensures[result] result == z
 //@ modifies z
